@@ -41,6 +41,10 @@ C14_TOPOS = {
     "chain_old": dict(until=2, sims=[T("A", cls="Ver_kw_opt", api_version="2.2"),
                                      T("B", cls="Ver_none_a2", api_version="2")],
                       conns=[C("A", "B", "po", "mi")]),
+    # plain (non-generator) in-process simulators, event-based/hybrid, run synchronously
+    "plain_EH": dict(until=3, sims=[E("A", cls="PlainStub", init_event=0, next=[1, 1], emit_default=0),
+                                    H("B", cls="PlainStub", next_default=1), T("X", cls="PlainStub")],
+                     conns=[C("A", "B", "eo", "ti")]),
     # an agent with a request of its own to mosaik (get_data for an attribute that is not in
     # the cache, so that mosaik has to ask A) -- the fault can hit while that is outstanding
     "async_agent": dict(until=2, sims=[H("A", next_default=1),
@@ -111,14 +115,22 @@ def c13_post(x, fault):
 
 
 # ---- C14 ---------------------------------------------------------------------------------------
-FAULT_KINDS_LOCAL = ["raise", "raise_type", "raise_value", "raise_conn"]
+FAULT_KINDS_LOCAL = ["raise", "raise_type", "raise_value", "raise_conn", "raise_exit"]
 FAULT_KINDS_MEM = ["raise", "close", "die", "die_after"]
 
 
 def c14_cases(tier):
+    import contextlib
+    import io
+    with contextlib.redirect_stdout(io.StringIO()):       # (deprecation notes of mosaik_api_v3)
+        return _c14_cases(tier)
+
+
+def _c14_cases(tier):
     out = []
     for name, scen in C14_TOPOS.items():
-        for tr in ("local", "mem"):
+        plain = any(s.get("cls") == "PlainStub" for s in scen["sims"])
+        for tr in (("local",) if plain else ("local", "mem")):
             for s in scen["sims"]:
                 sid = s["sid"]
                 nsteps, has_out = _steps_of(scen, sid)
@@ -131,7 +143,8 @@ def c14_cases(tier):
                     if tr == "mem" and any(a[0] == "get" for a in acts):
                         reqs.append(("async", int(k_)))
                 for req, k in reqs:
-                    for fk in (FAULT_KINDS_LOCAL if tr == "local" else FAULT_KINDS_MEM):
+                    for fk in ((FAULT_KINDS_LOCAL + (["raise_stop"] if plain else []))
+                               if tr == "local" else FAULT_KINDS_MEM):
                         if req == "async" and fk not in ("close", "die"):
                             continue
                         sc = copy.deepcopy(scen)
@@ -148,6 +161,8 @@ class InjectedFault(RuntimeError):
 def inject(run, stub, f):
     """generator run inside the stub's handler at the fault point"""
     kind = f["kind"]
+    if kind.startswith("raise"):
+        run.fault_done = True
     if kind == "raise":
         raise InjectedFault(f"injected failure in {stub.sid}")
     if kind == "raise_type":
@@ -157,6 +172,10 @@ def inject(run, stub, f):
     if kind == "raise_value":
         # ... nor ValueError (unpacking of malformed request tuples in the version adapters)
         raise ValueError(f"injected ValueError in {stub.sid}")
+    if kind == "raise_exit":
+        # an in-process simulator that calls sys.exit(): a BaseException, which asyncio
+        # propagates out of the loop from whatever task is being stepped
+        raise SystemExit(3)
     if kind == "raise_conn":
         raise ConnectionAbortedError(f"injected ConnectionError in {stub.sid}")
     ch = getattr(stub, "_mem_channel", None)
@@ -169,6 +188,8 @@ def inject(run, stub, f):
     if kind in ("close", "die") and run.gated and run.cfg.get("fault_gate"):
         # *when* the fault happens, relative to everything else in flight, is a choice
         yield run.loop.gate((stub.sid, "fault", f["k"]))
+    if kind in ("close", "die"):
+        run.fault_done = True
     if kind == "close":
         # the simulator closes its connection before replying, then goes away
         ch._writer.close()
@@ -290,10 +311,26 @@ def c14_post(x, fault):
                 not (fault["kind"] == "raise" and fault["transport"] == "mem" and logged):
             add("fault-swallowed", "run() returned normally without an error"
                 + (" (error logged)" if logged else ""))
+    if x.run.stuck_after_fault is not None and res[0] not in ("deadlock", "livelock"):
+        add("waits-for-survivor-after-fault",
+            f"after the fault run() only went on when a surviving simulator answered (quiescent "
+            f"loop, no timer, pending replies {x.run.stuck_after_fault}): with a survivor that is "
+            f"stuck in its request run() would hang")
+    second = [e for e in tr if e[0] == "X" and e[2] == "second-shutdown-raised"]
+    if second:
+        add("second-shutdown-raised", f"a second world.shutdown() raised {second[0][3]}")
     for v in shutdown_verdicts(x, "C14", exempt=sid):
         v["msg"] += f" [{fault['kind']} in {fault['req']}[{fault['k']}] of {sid}, {fault['transport']}]"
         v["sim"] = sid
         out.append(v)
+    if fault["kind"] == "raise_exit" and res[0] == "exc" and res[1] == "SystemExit":
+        # F27: the error does come out of run(), but asyncio re-raises a SystemExit out of the
+        # loop from whatever task is being stepped, also while shutdown() stops the simulators
+        for v in out:
+            if v["cls"] is None and v["kind"] in ("finalize-count", "loop-not-closed", "channel-left-open",
+                                                  "socket-not-closed", "pending-tasks-at-close",
+                                                  "second-shutdown-raised"):
+                v["cls"] = "base-exception-out-of-the-loop"
     return out
 
 
@@ -429,6 +466,10 @@ def check(prop, tier):
             # of the simulators' own)
             fg = dict(fault_gate=True) if (tier == "thorough" or name.startswith("async_agent")) \
                 and fault["transport"] == "mem" else {}
+            if name.startswith("plain_EH"):
+                fg = dict(sync="all")
+            # the caller's own `finally: world.shutdown()` after run() must stop nobody twice
+            fg["double_shutdown"] = True
             jobs.append((prop, name, scen, fault,
                          dict(lazy=True, cache=True, transport=fault["transport"], **fg), d, 4000))
             if fault["transport"] == "mem" and fault["kind"] != "raise":
